@@ -3,6 +3,8 @@ import DimodProofs.CqmHistory
 import DimodProofs.CqmHistory2
 import DimodProofs.CqmHistory3
 import DimodProofs.CqmHistory4
+import DimodProofs.CqmHistory5
+import DimodProofs.CqmOnehotTable
 
 /-! # C05 — a CQM keeps every expression attached to the right variables
 
@@ -828,6 +830,172 @@ example :
     (∀ k, k < ops.length → ((demo.run (ops.take k)).step (ops.getD k .deepcopy)).2 = none)
     ∧ ((demo.run (ops.take 1)).cons.map (·.discrete)) = [false, true]
     ∧ ((demo.run ops).cons.map (·.discrete)) = [false, false] := by
+  decide +kernel
+
+/-! ## Round 8: `flip_variable` of a BINARY variable as a FUNCTION; every operation, per step and per history -/
+
+/-- **`flip_variable(v)` is a function of what the model shows.**  `LCqm.flipF s lin v`: `s ↦ −s` in every expression when `v`
+    is SPIN; when `v` is BINARY, `x ↦ 1 − x` in every expression and then the mark of exactly those constraints is cleared
+    that are marked, one-hot AFTER the substitution and mention `v` (`LCons.isOnehotWith`: `is_linear()` of the stored
+    expression — the one observation a polynomial does not show, passed in as `lin` —, at least two variables, sense `==`,
+    offset 0, every variable BINARY, every linear bias equal to the right-hand side); an error otherwise.  From any reachable
+    state, a `flip_variable` call that returns leaves exactly that model; `lin` is `linFlags` = the `is_linear()` observation
+    of every constraint BEFORE the call (the substitution keeps every adjacency key: `linFlags_mapSubstitute`).
+    This closes the gap of `history_refines_every_op_partial` / `history_refines_builders_partial` (the BINARY branch). -/
+theorem flip_variable_is_a_function (pre : List Cqm.Op) (hpre : ∀ op ∈ pre, OpOK op) (v : Label) :
+    let m := ({} : Cqm).run pre
+    (m.step (.flipVariable v)).2 = none →
+      (absCqm m).flipF (linFlags m) v = some (absCqm (m.step (.flipVariable v)).1) := by
+  intro m hok
+  have hinv : RefInv m := ⟨history_inv pre hpre, history_labels pre, history_keysym pre hpre, history_sorted pre hpre⟩
+  exact refines_flipF hinv v (Prod.ext rfl hok)
+
+/-- **The history theorem, every operation, as a function, no `_partial`.**  `specStepObs s lin op` is `specStepFull s op` for
+    every operation but `flip_variable` and `LCqm.flipF s lin v` for it.  From ANY reachable state, along ANY list of public
+    operations whose calls return normally (model arguments well formed, without BINARY/SPIN self-loops), EVERY step takes the
+    abstraction of the CQM to the value of that function at (the abstraction before the step, the `is_linear()` flags of the
+    constraints before the step): `ObsRun`.  Nothing relational is left: compare `history_refines_every_op` (`specRel`). -/
+theorem history_refines_every_op_function (pre ops : List Cqm.Op) (hpre : ∀ op ∈ pre, OpOK op) (hops : ∀ op ∈ ops, OpOK2 op)
+    (hsucc : Succeeds (({} : Cqm).run pre) ops) : ObsRun (({} : Cqm).run pre) ops := by
+  have hinv : RefInv (({} : Cqm).run pre) :=
+    ⟨history_inv pre hpre, history_labels pre, history_keysym pre hpre, history_sorted pre hpre⟩
+  exact obsRun_refines ops hinv hops hsucc
+
+/-- **`flip_variable` — the function is total.**  From any reachable state `LCqm.flipF` is an error EXACTLY when the call raises
+    (unknown label, INTEGER or REAL variable), and a call that raises leaves the model as it was; together with
+    `flip_variable_is_a_function`: for every label the call and the function on (polynomials, `is_linear()` flags) agree on
+    accept / reject and on the resulting model. -/
+theorem flip_variable_total (pre : List Cqm.Op) (hpre : ∀ op ∈ pre, OpOK op) (v : Label) :
+    let m := ({} : Cqm).run pre
+    ((absCqm m).flipF (linFlags m) v = none ↔ (m.step (.flipVariable v)).2 ≠ none)
+    ∧ ((m.step (.flipVariable v)).2 ≠ none → (m.step (.flipVariable v)).1 = m) := by
+  intro m
+  have hinv : RefInv m := ⟨history_inv pre hpre, history_labels pre, history_keysym pre hpre, history_sorted pre hpre⟩
+  exact flipF_none_iff hinv v
+
+/-- **The overlap test is a function of what the model shows.**  "`v` is a variable of some discrete constraint" — what
+    `remove_variable(v)` refuses on and `add_discrete(…, check_overlaps=True)` tests (`Cqm.inDiscrete`, an index-level walk over
+    `is_discrete()` and `has_variable`) — equals `LCqm.inDiscreteWith` on the list of label-keyed polynomials and the
+    `is_linear()` flags, from any reachable state; hence `remove_variable(v)` raises exactly when `v` is unknown or that
+    label-level test holds, and then leaves the model as it was.  (r7c's open item "the overlap test of add_discrete stays
+    index-level": `is_linear` is the one observation needed beyond the polynomials.) -/
+theorem overlap_test_is_label_level (pre : List Cqm.Op) (hpre : ∀ op ∈ pre, OpOK op) (v : Label) :
+    let m := ({} : Cqm).run pre
+    (∀ g, m.idx? v = some g → m.inDiscrete g = (absCqm m).inDiscreteWith (linFlags m) v)
+    ∧ ((m.step (.removeVariable v)).2 ≠ none ↔ ((absCqm m).info v = none ∨ (absCqm m).inDiscreteWith (linFlags m) v = true))
+    ∧ ((m.step (.removeVariable v)).2 ≠ none → (m.step (.removeVariable v)).1 = m) := by
+  intro m
+  have hinv : RefInv m := ⟨history_inv pre hpre, history_labels pre, history_keysym pre hpre, history_sorted pre hpre⟩
+  have h1 : ∀ g, m.idx? v = some g → m.inDiscrete g = (absCqm m).inDiscreteWith (linFlags m) v :=
+    fun g hg => inDiscrete_abs hinv.wf hinv.lab (idx?_get hg)
+  have hstep : m.step (.removeVariable v) = m.removeVariableR v := rfl
+  refine ⟨h1, ?_, ?_⟩
+  · rw [hstep]
+    unfold Cqm.removeVariableR
+    cases hg : m.idx? v with
+    | none =>
+      have : (absCqm m).info v = none := by
+        show (Cqm.findIdx v m.labels 0).map _ = none
+        have : Cqm.findIdx v m.labels 0 = none := hg
+        rw [this]; rfl
+      simp [this]
+    | some g =>
+      have hinfo : (absCqm m).info v ≠ none := by
+        show (Cqm.findIdx v m.labels 0).map _ ≠ none
+        have : Cqm.findIdx v m.labels 0 = some g := hg
+        rw [this]; simp
+      simp only []
+      rw [← h1 g hg]
+      by_cases hd : m.inDiscrete g = true
+      · rw [if_pos hd]; simp [hd]
+      · rw [if_neg hd]; simp [hd, hinfo]
+  · rw [hstep]
+    unfold Cqm.removeVariableR
+    cases hg : m.idx? v with
+    | none => intro _; rfl
+    | some g =>
+      simp only []
+      by_cases hd : m.inDiscrete g = true
+      · rw [if_pos hd]; intro _; rfl
+      · rw [if_neg hd]; intro h; exact absurd rfl h
+
+/-- **The mark-clearing rule is the source's.**  The tests of `Constraint::is_onehot` (constraint.h: every `if (<test>) return
+    false;` in source order and the final `return`) and the statements of the Python `ConstrainedQuadraticModel.flip_variable`
+    (constrained.py) are EXTRACTED on every run into `Generated/OnehotTable.lean` (`harness/translators/c05_onehot.py`).  Read as
+    "the first test that fires returns false", the extracted list IS the model's `Cons.isOnehot` for every constraint and variable
+    table (an unrecognised, dropped, added or altered test breaks this theorem); the Python statement list is the one the model's
+    BINARY branch follows: the substitution FIRST, then for every label that `is_discrete()` at that moment, the mark goes if the
+    constraint mentions `v` (`flip_variable_is_a_function` is stated about exactly that). -/
+theorem generated_onehot_is_the_model (vt : List VT4) (c : Cons) :
+    OnehotTab.onehotBy Generated.OnehotTable.finalReturn vt c Generated.OnehotTable.rejects = some (c.isOnehot vt)
+    ∧ Generated.OnehotTable.flipPython = OnehotTab.flipPythonModelled :=
+  ⟨OnehotTab.onehotBy_generated vt c, OnehotTab.flipPython_generated⟩
+
+/-- **The mark the copying `fix_variables` leaves, at label level.**  `fix_variables(fixed, inplace=False)` keeps the discrete
+    mark of a constraint iff it was marked and the NEW constraint `is_onehot()` (`mark_discrete(old.marked_discrete() &&
+    new.is_onehot())`): with `LCons.isOnehotWith` that test is a function of the returned model's label-keyed polynomial, its
+    variable table and its `is_linear()` observation — no index-level notion is left in the statement. -/
+theorem fix_copy_mark_label_level (m m' : Cqm) (hwf : CqmWF m) (hl : CqmLabelsOK m) (fixed : List (Label × Rat))
+    (h : m.fixVariablesCopy fixed = some m') :
+    ∀ k, k < m.cons.length →
+      (m'.cons.getD k {}).discrete
+        = ((m.cons.getD k {}).discrete
+            && (absCons m'.labels (m'.cons.getD k {})).isOnehotWith (absCqm m').info ((linFlags m').getD k false)) := by
+  intro k hk
+  obtain ⟨_, a2, a3, a4, _⟩ := fix_copy_attrs_and_vars m m' hwf hl.labels_nodup fixed h
+  have hwf' : CqmWF m' := fixCopy_wf hwf h
+  have hlen : m'.cons.length = m.cons.length := by
+    have := congrArg List.length a2
+    simpa using this
+  have hk' : k < m'.cons.length := by rw [hlen]; exact hk
+  have hnd' : m'.labels.Nodup := by
+    have : m'.labels = m.labels.filter (fun l => !(fixed.any (·.1 = l))) := a4
+    rw [this]; exact hl.labels_nodup.filter _
+  have hc : m'.cons.getD k {} = m'.cons[k] := by
+    rw [List.getD_eq_getElem?_getD, List.getElem?_eq_getElem hk']; rfl
+  have hmem : m'.cons.getD k {} ∈ m'.cons := by rw [hc]; exact List.getElem_mem hk'
+  have hoh := flipfn_isOnehot_abs (hwf'.cons _ hmem) m'.vt m'.lb m'.ub m'.labels hnd' hwf'.labels_len (hwf'.cons_lt _ hmem)
+  have hfl : (linFlags m').getD k false = (m'.cons.getD k {}).e.qb.isLinear := by
+    unfold linFlags
+    rw [List.getD_eq_getElem?_getD, List.getElem?_map, List.getElem?_eq_getElem hk', hc]; rfl
+  rw [a3 k hk, hoh, hfl]
+  rfl
+
+/-- **`add_discrete(labels, check_overlaps=True)` accepts only labels outside every discrete constraint — at label level.**  From
+    any reachable state, when the call returns, every given label the model already knows fails the label-level overlap test
+    `LCqm.inDiscreteWith` (on the list of polynomials and the `is_linear()` flags): the index-level condition of
+    `cqm_step_refines_discrete` restated without indices. -/
+theorem add_discrete_overlap_label_level (pre : List Cqm.Op) (hpre : ∀ op ∈ pre, OpOK op) (vs : List Label) (label : Label) :
+    let m := ({} : Cqm).run pre
+    (m.step (.addDiscreteVars vs label true)).2 = none →
+      ∀ v ∈ vs, (absCqm m).info v ≠ none → (absCqm m).inDiscreteWith (linFlags m) v = false := by
+  intro m hok v hv hknown
+  have hinv : RefInv m := ⟨history_inv pre hpre, history_labels pre, history_keysym pre hpre, history_sorted pre hpre⟩
+  have hstep : m.step (.addDiscreteVars vs label true) = ((m.step (.addDiscreteVars vs label true)).1, none) := Prod.ext rfl hok
+  obtain ⟨h1, _⟩ := (cqm_step_refines_discrete m _ hinv.wf hinv.lab).2.2 vs label true hstep
+  cases hg : m.idx? v with
+  | none =>
+    exfalso; apply hknown
+    show (Cqm.findIdx v m.labels 0).map _ = none
+    have : Cqm.findIdx v m.labels 0 = none := hg
+    rw [this]; rfl
+  | some g =>
+    rw [← (overlap_test_is_label_level pre hpre v).1 g hg]
+    exact (h1 v hv g hg).2 rfl
+
+/-- not vacuous, both outcomes of the BINARY branch on `demo` + a discrete constraint `d` over x, y: the first flip of `x`
+    makes `d` no longer one-hot, so `is_discrete()` is False when the marks are examined and the mark STAYS; the second flip
+    restores the one-hot form and the mark is cleared — the function gives the marks the model has, and `is_linear()` is what
+    it needs (with the flag forced to False nothing is cleared) -/
+example :
+    let m1 := demo.run [.addDiscreteVars [.str "x", .str "y"] (.str "d") true]
+    let m2 := (m1.step (.flipVariable (.str "x"))).1
+    let m3 := (m2.step (.flipVariable (.str "x"))).1
+    (((absCqm m1).flipF (linFlags m1) (.str "x")).map (·.cons.map (·.2.discrete))) = some (m2.cons.map (·.discrete))
+    ∧ (((absCqm m2).flipF (linFlags m2) (.str "x")).map (·.cons.map (·.2.discrete))) = some (m3.cons.map (·.discrete))
+    ∧ m2.cons.map (·.discrete) = [false, true] ∧ m3.cons.map (·.discrete) = [false, false]
+    ∧ (((absCqm m2).flipF [true, false] (.str "x")).map (·.cons.map (·.2.discrete))) = some [false, true]
+    ∧ ((absCqm m1).flipF (linFlags m1) (.str "nope")).isNone = true := by
   decide +kernel
 
 end C05
